@@ -57,7 +57,7 @@ func c08Gen(rt *rapid.T) c08Case {
 		}
 	}
 	n := rapid.IntRange(4, 50).Draw(rt, "nops")
-	kinds := []string{"join", "leave", "hb", "hb", "hb", "hb", "graft", "graft", "graft", "prune", "prune", "advto", "advto", "advto", "adv", "depart", "return", "drain", "drain"}
+	kinds := []string{"join", "leave", "hb", "hb", "hb", "hb", "graft", "graft", "graft", "prune", "prune", "advto", "advto", "advto", "adv", "depart", "return", "drain", "drain", "fanoutpub"}
 	for i := 0; i < n; i++ {
 		op := c08Op{Op: rapid.SampledFrom(kinds).Draw(rt, "op"), P: rapid.IntRange(1, c.Peers).Draw(rt, "p"), T: rapid.IntRange(0, c.Topics-1).Draw(rt, "t")}
 		switch op.Op {
@@ -295,6 +295,14 @@ func c08RunInBubble(t *testing.T, c c08Case, res *vfResult) {
 			subs[op.T] = append(subs[op.T], s)
 			nearDeadline = nearDeadline || len(noGraftBefore) > 0
 			pump(step, "")
+		case "fanoutpub":
+			// publishing while not subscribed builds a fanout set; a later join promotes its members into the mesh
+			if len(subs[op.T]) == 0 {
+				_ = handle(op.T).Publish(n.ctx, []byte(fmt.Sprintf("fan-%d", step)))
+				n.settle()
+				res.label("fanout-publish")
+				pump(step, topic)
+			}
 		case "leave":
 			if len(subs[op.T]) == 0 {
 				continue
